@@ -34,6 +34,44 @@ def coq_table():
     return rows, ""
 
 
+def coq_overreach():
+    """explicit impls that grant a marker the fields do not have (pointer-free ADTs): rows [adt index, marker, assignment bits..] computed in the kernel"""
+    rc, o, e, _ = vlib.sh("timeout 300 coqc -Q %s Verif %s" % (vlib.COQ, os.path.join(vlib.COQ, "gen", "C09Over.v")), timeout=330)
+    if rc != 0:
+        return None, (o + e)[-600:]
+    flat = " ".join(o.split())
+    rows = [[int(x) for x in r.split(";") if x.strip()] for r in re.findall(r"\[([0-9; ]+)\]", flat)]
+    names = re.findall(r'mkadt "([^"]+)" (\d+)', open(os.path.join(vlib.COQ, "gen", "AutoTraits_Src.v")).read())
+    return [(names[r[0]][0], r[1], [(bool(r[2 + 2 * i]), bool(r[3 + 2 * i])) for i in range((len(r) - 2) // 2)]) for r in rows if r and r[0] < len(names)], ""
+
+
+PAYLOAD_TY = {(True, True): "u32", (True, False): "core::cell::Cell<u32>", (False, True): "NotSendButSync", (False, False): "std::rc::Rc<u32>"}
+
+
+def contents_witness(name, marker, rho, defs):
+    need = "need_send" if marker == 0 else "need_sync"
+    ty = "%s<%s>" % (name, ", ".join(PAYLOAD_TY[p] for p in rho)) if rho else name
+    bad = [i for i, p in enumerate(rho) if not (p[0] if marker == 0 else p[1])]
+    return ty, ("// compiles against /repo/cglue: %s is %s although it holds a value (type parameter(s) %s) that is not\n"
+                "#![allow(dead_code, unused_imports)]\nuse cglue::prelude::v1::*; use cglue::*; use cglue::arc::*; use cglue::boxed::*; use cglue::forward::*; use cglue::trait_group::*;\n"
+                "%s\npub struct NotSendButSync(std::sync::MutexGuard<'static, u32>);\nfn need_send<T: Send>() {}\nfn need_sync<T: Sync>() {}\n"
+                "fn main() { %s::<%s>(); }\n" % (ty, "Send" if marker == 0 else "Sync", bad, defs, need, ty))
+
+
+def compiles(prog, tag):
+    d = os.path.join(vlib.CACHE, "c09contents")
+    os.makedirs(os.path.join(d, "src"), exist_ok=True)
+    open(os.path.join(d, "src", "main.rs"), "w").write(prog)
+    open(os.path.join(d, "Cargo.toml"), "w").write('[package]\nname = "c09contents"\nversion = "0.0.0"\nedition = "2018"\n\n[workspace]\n\n[dependencies]\ncglue = { path = "/repo/cglue" }\n')
+    try:
+        import shutil
+        shutil.copy(os.path.join(vlib.REPO, "Cargo.lock"), os.path.join(d, "Cargo.lock"))
+    except OSError:
+        pass
+    rc, o, e, _ = vlib.sh("timeout 600 cargo build --offline", cwd=d, timeout=630)
+    return rc == 0
+
+
 def witness_program(row, marker, defs):
     need = "need_send" if marker == "Send" else "need_sync"
     return ("// compiles against /repo/cglue: the opaque form is %s although the source handle is not\n"
@@ -181,6 +219,21 @@ def run(tier, seed, replay):
                         violations.append(("input", "%s: the container %s is %s for payload (Send=%d,Sync=%d) although its instance handle %s is not"
                                            % (m["name"], meta_row["src"], marker, ps, py, base[2]), rp, False))
         stats["containers_more_thread_safe_than_their_handle"] = wrapped_gain
+        # ---- monitor 3: an explicit unsafe impl never grants a marker that the fields (instance handle, context, return scratch space) do not have
+        over, oerr = coq_overreach()
+        if over is None:
+            broken.append(("correspondence", "overreach table not computable: " + oerr))
+        else:
+            stats["explicit_impls_granting_more_than_their_fields"] = len(over)
+            for name, marker, rho in over[:40]:
+                if len(violations) >= 3:
+                    break
+                ty, prog = contents_witness(name, marker, rho, defs)
+                if compiles(prog, name):
+                    rp = vlib.write_replay(PROP, seed, tier, "input", {
+                        "case": {"type": ty, "marker": "Send" if marker == 0 else "Sync", "parameters(Send,Sync)": rho}, "program": prog,
+                        "observed": "rustc: the type has the marker although one of the values it holds does not"})
+                    violations.append(("input", "%s is %s although it holds a value that is not (explicit unsafe impl weaker than the contents)" % (ty, "Send" if marker == 0 else "Sync"), rp, False))
         if seen_known:
             kf = [f for f in vlib.known_findings(PROP) if f.get("status") == "known"]
             for f in kf:
